@@ -9,6 +9,7 @@ import (
 	"compress/gzip"
 	"fmt"
 	"io"
+	"strings"
 	"time"
 
 	"verif/sim/model"
@@ -26,6 +27,9 @@ type Entry struct {
 	Body string `json:"body,omitempty"`
 	Pad  int    `json:"pad,omitempty"`  // extra body bytes (deterministic filler)
 	Zero int    `json:"zero,omitempty"` // zero bytes after that (a preallocated tail)
+	// Sparse > 0: a regular entry with no stored data, preceded by a pax header that declares it
+	// a sparse file (format 0.1) of this logical size, all of it one hole
+	Sparse int64 `json:"sparse,omitempty"`
 }
 
 // RawMut mutates the uncompressed tar stream (C19 workload): byte Off of
@@ -111,6 +115,14 @@ func (a *Archive) BuildTar() ([]byte, error) {
 		if tf == tar.TypeXGlobalHeader {
 			h = &tar.Header{Typeflag: tf, Name: e.Name, PAXRecords: map[string]string{"comment": "verif"}}
 		}
+		if e.Sparse > 0 && (tf == tar.TypeReg || tf == tar.TypeRegA) {
+			if err := tw.Flush(); err != nil {
+				return nil, err
+			}
+			buf.Write(paxSparseHeader(e.Name, e.Sparse))
+			h.Format, h.Size, body = tar.FormatUSTAR, 0, nil
+			h.ModTime = time.Unix(e.Sec, 0)
+		}
 		if err := tw.WriteHeader(h); err != nil {
 			if a.Format != "auto" {
 				// the chosen format cannot express this entry: let the writer choose
@@ -147,6 +159,34 @@ func (a *Archive) BuildTar() ([]byte, error) {
 		raw = raw[:a.CutTar*512]
 	}
 	return raw, nil
+}
+
+// paxSparseHeader is a pax extended header ('x') for the entry that follows
+// it, carrying the records of the GNU sparse format 0.1: logical size n, one
+// data fragment of length 0.
+func paxSparseHeader(name string, n int64) []byte {
+	var recs []byte
+	for _, kv := range [][2]string{{"GNU.sparse.size", fmt.Sprint(n)}, {"GNU.sparse.numblocks", "1"}, {"GNU.sparse.map", "0,0"}} {
+		size := len(kv[0]) + len(kv[1]) + 3
+		size += len(fmt.Sprint(size))
+		rec := fmt.Sprintf("%d %s=%s\n", size, kv[0], kv[1])
+		if len(rec) != size {
+			rec = fmt.Sprintf("%d %s=%s\n", len(rec), kv[0], kv[1])
+		}
+		recs = append(recs, rec...)
+	}
+	blk := make([]byte, 512)
+	copy(blk[0:100], "PaxHeaders.0/"+name)
+	copy(blk[100:108], "0000644\x00")
+	copy(blk[108:116], "0000000\x00")
+	copy(blk[116:124], "0000000\x00")
+	copy(blk[124:136], fmt.Sprintf("%011o\x00", len(recs)))
+	copy(blk[136:148], "00000000000\x00")
+	blk[156] = 'x'
+	copy(blk[257:265], "ustar\x0000")
+	fixChecksum(blk)
+	pad := (512 - len(recs)%512) % 512
+	return append(append(blk, recs...), make([]byte, pad)...)
 }
 
 func fixChecksum(blk []byte) {
@@ -238,13 +278,19 @@ func Decode(raw []byte) (ents []model.DEntry, complete bool) {
 			return ents, false
 		}
 		var body []byte
-		if h.Typeflag == tar.TypeReg || h.Typeflag == tar.TypeRegA {
+		sparse := false
+		for k := range h.PAXRecords {
+			if strings.HasPrefix(k, "GNU.sparse.") {
+				sparse = true
+			}
+		}
+		if !sparse && (h.Typeflag == tar.TypeReg || h.Typeflag == tar.TypeRegA) {
 			body, err = io.ReadAll(tr)
 			if err != nil {
 				return ents, false
 			}
 		}
 		ents = append(ents, model.DEntry{Name: h.Name, Type: h.Typeflag, Mode: int64(h.FileInfo().Mode().Perm()),
-			MtimeNs: h.ModTime.UnixNano(), Link: h.Linkname, Body: body})
+			MtimeNs: h.ModTime.UnixNano(), Link: h.Linkname, Body: body, Sparse: sparse})
 	}
 }
